@@ -88,14 +88,14 @@ def observe_table(tbl):
     return {el.number: obs_element(el) for el in tbl}
 
 
-def obs_f0(tbl, cromermann):
+def obs_f0(tbl, cromermann, keyconv=int):
     """f0 through Xray.f0 for every element and ion at three Q; 'X' when no entry"""
     out = {}
     for el in tbl:
         if el.number == 0:
             continue
         for q in (0,) + tuple(el.ions):
-            atom = el if q == 0 else el.ion[q]
+            atom = el if q == 0 else el.ion[keyconv(q)]
             out[(el.number, q)] = [P.observe(lambda: float(atom.xray.f0(Q))) for Q in (0.0, 2.5, 80.0)]
     return out
 
@@ -363,6 +363,71 @@ def sweep(run: Run, label, tbl, exp, src, symbols, cromermann):
             run.violation("%s of %s is not the table's" % (name, f0_key(symbols[z], q)),
                           dict(table=label, z=z, q=q, observable=name, expected=e, got=g),
                           observable=name, z=z, q=q)
+
+
+def numeric_charges(run: Run, exp, symbols, cromermann, mods):
+    """a charge is a number: ions first addressed with a numpy integer / float key, and fxrayatq /
+    fxrayatstol called with such a charge, serve the entry of that ion (real code + oracle only)"""
+    for name, conv in (("np.int64", _np.int64), ("float", float), ("np.int32", _np.int32)):
+        t = private_table(mods)
+        obs = obs_f0(t, cromermann, keyconv=conv)
+        for (z, q), vals in sorted(obs.items()):
+            run.count(key=("f0-key", name, z, q), nontrivial=f0_key(symbols[z], q) in exp.f0, tag="f0:key-type")
+            for what, e, g in oracle_f0(exp, z, q, vals):
+                run.violation("%s of %s, first addressed as ion[%s(%d)], is not the table's" % (what, f0_key(symbols[z], q), name, q),
+                              dict(kind="numeric-charge", key_type=name, z=z, q=q, observable=what, expected=e, got=g),
+                              observable=what, z=z, q=q)
+        P.drop_private(t)
+    for n in ("Fe", "Na", "Cl", "O", "Ca", "Fe3+", "Cl1-"):
+        for ch in (1, 2, -1, -2, 3):
+            def look(c):
+                try:
+                    return [float(cromermann.fxrayatstol(n, 0.1, c)), float(cromermann.fxrayatq(n, 2.5, c))]
+                except KeyError:
+                    return "KeyError"
+            ref = look(ch)
+            for name, conv in (("float", float), ("np.int64", _np.int64), ("np.float64", _np.float64)):
+                got = P.observe(lambda: look(conv(ch)))
+                run.count(key=("cm-charge-type", n, ch, name), nontrivial=ref != "KeyError", tag="cm:charge-type")
+                if got != ref:
+                    run.violation("fxrayatstol/fxrayatq(%r, charge=%s(%d)) serve another entry than charge=%d" % (n, name, ch, ch),
+                                  dict(kind="numeric-charge", symbol=n, charge=ch, key_type=name, expected=ref, got=P.tok(got)),
+                                  observable="fxrayatstol", symbol=n)
+
+
+def private_first_probe(run: Run, exp, symbols):
+    """a fresh interpreter in which a private table is initialised before anything of the public table
+    was read: every element of it (the first row each loader assigns included) serves its table entry"""
+    import pickle
+    import subprocess
+    import sys
+    from ..common import REPO, VERIF
+    code = ("import sys, pickle; sys.path.insert(0, %r)\n"
+            "from periodictable import core, covalent_radius, crystal_structure, xsf, magnetic_ff\n"
+            "order = sys.argv[1].split(',')\n"
+            "t = core.PeriodicTable('c20-first')\n"
+            "inits = dict(cov=covalent_radius.init, cr=crystal_structure.init, lines=xsf.init_spectral_lines, mag=magnetic_ff.init)\n"
+            "for k in order: inits[k](t)\n"
+            "from ptv.props.C20 import obs_element\n"
+            "import periodictable\n"
+            "out = dict(private={el.number: obs_element(el) for el in t}, public={el.number: obs_element(el) for el in periodictable.elements})\n"
+            "sys.stdout.buffer.write(pickle.dumps(out))\n" % str(REPO))
+    env = dict(os.environ, PYTHONPATH=str(VERIF / "harness"), PYTHONDONTWRITEBYTECODE="1", PTV_REPO=str(REPO))
+    for order in ("cov,lines,cr,mag", "mag,cr,lines,cov"):
+        p = subprocess.run([sys.executable, "-c", code, order], capture_output=True, timeout=600, env=env)
+        run.count(key=("private-first", order), nontrivial=True, tag="private-first")
+        inp = dict(kind="private-first", order=order)
+        if p.returncode != 0:
+            run.violation("initialising a private table before any public read raises: %s"
+                          % p.stderr.decode(errors="replace").strip()[-300:], inp, observable="init")
+            continue
+        out = pickle.loads(p.stdout)
+        for label in ("private", "public"):
+            for z in sorted(out[label]):
+                for name, e, g in oracle_element(exp, z, out[label][z]):
+                    run.violation("%s of %s is not the table's (%s table of a process whose first ancillary load was "
+                                  "a private table's)" % (name, symbols[z], label),
+                                  dict(inp, table=label, z=z, observable=name, expected=e, got=g), observable=name, z=z)
 
 
 def check_cm_entries(run: Run, exp, src, cromermann):
@@ -789,6 +854,8 @@ def run(run: Run) -> int:
     sweep(run, "private", priv, exp, src, symbols, cromermann)
     P.drop_private(priv)
     check_cm_entries(run, exp, src, cromermann)
+    numeric_charges(run, exp, symbols, cromermann, mods)
+    private_first_probe(run, exp, symbols)
     run.exhaustive = True
     run_generated(run, 50 if run.tier == "quick" else 6000, symbols, mods)
     return run.finish(RULE, assumptions=[
@@ -814,6 +881,15 @@ def replay(data) -> int:
             continue
         if inp.get("kind") == "selfcheck":
             print(run_driver("loader", anc_lines(src) + ["anc_selfcheck"]))
+            continue
+        if inp.get("kind") in ("numeric-charge", "private-first"):
+            r = Run("C20", "quick", 0)
+            if inp["kind"] == "numeric-charge":
+                numeric_charges(r, exp, symbols, cromermann, mods)
+            else:
+                private_first_probe(r, exp, symbols)
+            for x in r.violations[:5]:
+                print(" real code + oracle:", x["what"], x["input"].get("expected"), x["input"].get("got"))
             continue
         if "z" in inp:
             tbl = pt.elements if inp.get("table") != "private" else private_table(mods)
